@@ -397,6 +397,62 @@ pub(crate) fn run(opts: &Opts, report: &mut Report) {
             let wref = &w;
             sweep::sweep_scenario(&env, &w, params, scn, &sweep_opts, &|home| tx_proof_forgeries(wref, home), &cross, &view, &mut judge)
         };
+        // ---- forged matched blocks: a BlockFilters answer with authentic filters whose block
+        // hashes are those of forged, self-consistent blocks (same height and parent, one more
+        // transaction paying a registered script), followed at once by the bodies of those
+        // blocks — before any proof could mark them proven. Nothing of them may be indexed.
+        if chunk == 0 && scn == Scn::Filters {
+            let (mut sim, _) = build_with(&env, &w, params, scn, None);
+            if let Some(pos) = sim.queue.iter().position(|m| kind_of(m) == "BlockFilters") {
+                let honest = sim.queue.remove(pos).unwrap();
+                if let Ok(packed::BlockFilterMessageUnion::BlockFilters(m)) = packed::BlockFilterMessage::from_slice(&honest.data).map(|x| x.to_enum()) {
+                    let start: u64 = m.start_number().unpack();
+                    let n = m.filters().len();
+                    let mut forged_blocks = vec![];
+                    for i in 0..n {
+                        let real = &w.main.blocks[(start as usize) + i];
+                        let extra = crate::verif::txlib::build_tx(
+                            &[],
+                            &[packed::OutPoint::new(real.transactions()[0].hash(), 0)],
+                            &[crate::verif::txlib::OutSpec::lock(&env.scripts.a, 77_0000_0000)],
+                            0xf0 + i as u64,
+                        );
+                        let forged = real.as_advanced_builder().transaction(extra).build();
+                        forged_blocks.push(forged);
+                    }
+                    let hashes: Vec<packed::Byte32> = forged_blocks.iter().map(|b| b.hash()).collect();
+                    let msg = packed::BlockFilterMessage::new_builder().set(m.as_builder().block_hashes(hashes.pack()).build()).build();
+                    let before = index_view(&sim);
+                    let r = crate::verif::props::panics::catch(|| {
+                        sim.deliver_msg(crate::verif::driver::InFlight { proto: honest.proto.clone(), peer: honest.peer, data: msg.as_bytes(), note: "BlockFilters[forged block hashes]".into() });
+                        for b in &forged_blocks {
+                            let sb = packed::SyncMessage::new_builder().set(packed::SendBlock::new_builder().block(b.data()).build()).build();
+                            sim.deliver_msg(crate::verif::driver::InFlight { proto: crate::verif::net::Proto::Sync, peer: honest.peer, data: sb.as_bytes(), note: "SendBlock[forged]".into() });
+                        }
+                    });
+                    report.count("forged_matched_block_runs", 1);
+                    match r {
+                        Err(p) => report.violation(format!("abort/{}", p.site()), format!("{} [forged matched blocks]", p.describe()), json!({"scenario": "Filters", "forgery": "forged matched blocks"})),
+                        Ok(()) => {
+                            let bad = inv_committed(&sim, &w.main);
+                            let after = index_view(&sim);
+                            if !bad.is_empty() || after != before {
+                                report.violation(
+                                    "uncommitted-data-stored/forged-matched-block/unproved-body-indexed".to_owned(),
+                                    format!(
+                                        "BlockFilters (start {}) with authentic filters but the hashes of {} forged self-consistent blocks, followed by their bodies before any proof: the index changed ({})",
+                                        start,
+                                        n,
+                                        bad.first().cloned().unwrap_or_else(|| "new records".to_owned())
+                                    ),
+                                    json!({"scenario": "Filters", "params": format!("{:?}", params), "spec": spec, "broken_records": bad.iter().take(8).collect::<Vec<_>>(), "before": before, "after": after}),
+                                );
+                            }
+                        }
+                    }
+                }
+            }
+        }
         // vacuity guard + honest control: finish the history honestly; the index must be
         // non-empty and committed
         if chunk == 0 && is_home {
